@@ -347,7 +347,10 @@ def check_align_gen(ctx: Ctx, case, use_model=True):
     m_all_rank = bool(m_raises) and len(m_raises) == nb and all(m[1] == "notFullRank" for m in m_raises)
     m_other = [m for m in m_raises if m[1] != "notFullRank"]
     if raised is not None:
-        if use_model and not (m_all_rank or m_other):
+        # (a batch in which *some* item has scale 0 — all its target points coincide after rounding — passes the
+        # batch-level rank test and then fails the orthogonality test on rot/0: `scaledRotBatch` of the model; such an
+        # item is reported by the per-item driver op as notFullRank, so any model raise makes a raise consistent)
+        if use_model and not m_raises:
             ctx.disagree("align.raise", case, f"{fn} raised {type(raised).__name__}: {str(raised)[:100]} but the model returns a value")
             ctx.fail(case, f"raises: {fn} raises {type(raised).__name__} ({str(raised)[:80]}) on valid corresponding point sets")
             return False
@@ -628,7 +631,7 @@ def icp_spec(r: random.Random, N, inside: bool, **kw) -> dict:
 def min_sep(pts):
     p = torch.tensor(pts, dtype=torch.float64)
     d = (p.unsqueeze(0) - p.unsqueeze(1)).norm(dim=-1)
-    d = d + torch.eye(len(pts)) * 1e300
+    d.fill_diagonal_(float("inf"))
     return float(d.min())
 
 
@@ -752,7 +755,7 @@ def check_icp_gen(ctx: Ctx, spec, use_model=True):
     if spec.get("inside") and (passes_done is None or passes_done >= 1):
         want = U.apply_vec(torch.tensor(truth["t"] + truth["q"], dtype=torch.float64), S64)
         res = float((U.apply_vec(X, S64) - want).abs().max())
-        tolr = 4096 * eps * D * max(1.0, D / max(min_sep(src), 1e-300)) ** 0 * (1 + spec["N"] ** 0.5)
+        tolr = 4096 * eps * D * (1 + spec["N"] ** 0.5)
         ctx.count("icp.recovery")
         if not (res <= tolr):
             ctx.fail(case, f"recover: ICP does not recover an exact rigid perturbation inside the basin: max point error {res:.3e} > {tolr:.3e} "
@@ -998,12 +1001,12 @@ def run_epnp(ctx: Ctx, specs):
 def run(ctx: Ctx):
     rng = ctx.rng
     cases = corner_cases(rng)
-    n = ctx.pick(260, 4000)
+    n = ctx.pick(260, 8000)
     cases += [random_align_case(rng) for _ in range(n)]
     run_align(ctx, cases)
-    specs = icp_corner_specs() + [random_icp_spec(rng) for _ in range(ctx.pick(45, 700))]
+    specs = icp_corner_specs() + [random_icp_spec(rng) for _ in range(ctx.pick(45, 1200))]
     run_icp(ctx, specs)
-    especs = epnp_corner_specs() + [epnp_spec(rng) for _ in range(ctx.pick(70, 1200))]
+    especs = epnp_corner_specs() + [epnp_spec(rng) for _ in range(ctx.pick(70, 2500))]
     run_epnp(ctx, especs)
     ctx.notes.append("largest error/tolerance ratios: " + ", ".join(f"{k}={v:.3g}" for k, v in sorted(RATIOS.items())))
 
